@@ -188,8 +188,8 @@ func (k *keyManagementContext) generateNewDHKeyPair(randomness io.Reader) error 
 	return nil
 }
 
-func (k *keyManagementContext) revealMACKeysForOurPreviousKeyID() {
-	keys := k.macKeyHistory.forgetMACKeysForOurKey(k.ourKeyID - 1)
+func (k *keyManagementContext) revealMACKeysForOurKeyID(keyID uint32) {
+	keys := k.macKeyHistory.forgetMACKeysForOurKey(keyID)
 	k.oldMACKeys = append(k.oldMACKeys, keys...)
 }
 
@@ -222,8 +222,13 @@ func (h *counterHistory) forgetRetired(ourOldestKeyID, theirOldestKeyID uint32) 
 
 func (k *keyManagementContext) rotateOurKeys(recipientKeyID uint32, randomness io.Reader) error {
 	if recipientKeyID == k.ourKeyID {
-		k.revealMACKeysForOurPreviousKeyID()
-		return k.generateNewDHKeyPair(randomness)
+		// Our previous key is only retired once there is a new one. If no new
+		// key can be made, it stays in use and its MAC keys must stay secret.
+		retiredKeyID := k.ourKeyID - 1
+		if err := k.generateNewDHKeyPair(randomness); err != nil {
+			return err
+		}
+		k.revealMACKeysForOurKeyID(retiredKeyID)
 	}
 	return nil
 }
